@@ -53,40 +53,40 @@ open Py65 Py65.Gen Py65.Spec Py
 
 section
 variable (c : Cfg)
-@[pyarith] theorem cfg8_BYTE_WIDTH : dev6502.cfg.BYTE_WIDTH = 8 := rfl
-@[pyarith] theorem cfg8_ADDR_WIDTH : dev6502.cfg.ADDR_WIDTH = 16 := rfl
-@[pyarith] theorem cfg8_byteMask : dev6502.cfg.byteMask = 255 := rfl
-@[pyarith] theorem cfg8_addrMask : dev6502.cfg.addrMask = 65535 := rfl
-@[pyarith] theorem cfg8_addrHighMask : dev6502.cfg.addrHighMask = 65280 := rfl
-@[pyarith] theorem cfg8_spBase : dev6502.cfg.spBase = 256 := rfl
-@[pyarith] theorem cfg8_RESET : dev6502.cfg.RESET = 65532 := rfl
-@[pyarith] theorem cfg8_NMI : dev6502.cfg.NMI = 65530 := rfl
-@[pyarith] theorem cfg8_IRQ : dev6502.cfg.IRQ = 65534 := rfl
-@[pyarith] theorem cfg8_NEGATIVE : dev6502.cfg.NEGATIVE = 128 := rfl
-@[pyarith] theorem cfg8_OVERFLOW : dev6502.cfg.OVERFLOW = 64 := rfl
-@[pyarith] theorem cfg8_UNUSED : dev6502.cfg.UNUSED = 32 := rfl
-@[pyarith] theorem cfg8_BREAK : dev6502.cfg.BREAK = 16 := rfl
-@[pyarith] theorem cfg8_DECIMAL : dev6502.cfg.DECIMAL = 8 := rfl
-@[pyarith] theorem cfg8_INTERRUPT : dev6502.cfg.INTERRUPT = 4 := rfl
-@[pyarith] theorem cfg8_ZERO : dev6502.cfg.ZERO = 2 := rfl
-@[pyarith] theorem cfg8_CARRY : dev6502.cfg.CARRY = 1 := rfl
-@[pyarith] theorem cfg16_BYTE_WIDTH : dev65org16.cfg.BYTE_WIDTH = 16 := rfl
-@[pyarith] theorem cfg16_ADDR_WIDTH : dev65org16.cfg.ADDR_WIDTH = 32 := rfl
-@[pyarith] theorem cfg16_byteMask : dev65org16.cfg.byteMask = 65535 := rfl
-@[pyarith] theorem cfg16_addrMask : dev65org16.cfg.addrMask = 4294967295 := rfl
-@[pyarith] theorem cfg16_addrHighMask : dev65org16.cfg.addrHighMask = 4294901760 := rfl
-@[pyarith] theorem cfg16_spBase : dev65org16.cfg.spBase = 65536 := rfl
-@[pyarith] theorem cfg16_RESET : dev65org16.cfg.RESET = 65532 := rfl
-@[pyarith] theorem cfg16_NMI : dev65org16.cfg.NMI = 65530 := rfl
-@[pyarith] theorem cfg16_IRQ : dev65org16.cfg.IRQ = 65534 := rfl
-@[pyarith] theorem cfg16_NEGATIVE : dev65org16.cfg.NEGATIVE = 32768 := rfl
-@[pyarith] theorem cfg16_OVERFLOW : dev65org16.cfg.OVERFLOW = 16384 := rfl
-@[pyarith] theorem cfg16_UNUSED : dev65org16.cfg.UNUSED = 32 := rfl
-@[pyarith] theorem cfg16_BREAK : dev65org16.cfg.BREAK = 16 := rfl
-@[pyarith] theorem cfg16_DECIMAL : dev65org16.cfg.DECIMAL = 8 := rfl
-@[pyarith] theorem cfg16_INTERRUPT : dev65org16.cfg.INTERRUPT = 4 := rfl
-@[pyarith] theorem cfg16_ZERO : dev65org16.cfg.ZERO = 2 := rfl
-@[pyarith] theorem cfg16_CARRY : dev65org16.cfg.CARRY = 1 := rfl
+@[pyarith, pyconst] theorem cfg8_BYTE_WIDTH : dev6502.cfg.BYTE_WIDTH = 8 := rfl
+@[pyarith, pyconst] theorem cfg8_ADDR_WIDTH : dev6502.cfg.ADDR_WIDTH = 16 := rfl
+@[pyarith, pyconst] theorem cfg8_byteMask : dev6502.cfg.byteMask = 255 := rfl
+@[pyarith, pyconst] theorem cfg8_addrMask : dev6502.cfg.addrMask = 65535 := rfl
+@[pyarith, pyconst] theorem cfg8_addrHighMask : dev6502.cfg.addrHighMask = 65280 := rfl
+@[pyarith, pyconst] theorem cfg8_spBase : dev6502.cfg.spBase = 256 := rfl
+@[pyarith, pyconst] theorem cfg8_RESET : dev6502.cfg.RESET = 65532 := rfl
+@[pyarith, pyconst] theorem cfg8_NMI : dev6502.cfg.NMI = 65530 := rfl
+@[pyarith, pyconst] theorem cfg8_IRQ : dev6502.cfg.IRQ = 65534 := rfl
+@[pyarith, pyconst] theorem cfg8_NEGATIVE : dev6502.cfg.NEGATIVE = 128 := rfl
+@[pyarith, pyconst] theorem cfg8_OVERFLOW : dev6502.cfg.OVERFLOW = 64 := rfl
+@[pyarith, pyconst] theorem cfg8_UNUSED : dev6502.cfg.UNUSED = 32 := rfl
+@[pyarith, pyconst] theorem cfg8_BREAK : dev6502.cfg.BREAK = 16 := rfl
+@[pyarith, pyconst] theorem cfg8_DECIMAL : dev6502.cfg.DECIMAL = 8 := rfl
+@[pyarith, pyconst] theorem cfg8_INTERRUPT : dev6502.cfg.INTERRUPT = 4 := rfl
+@[pyarith, pyconst] theorem cfg8_ZERO : dev6502.cfg.ZERO = 2 := rfl
+@[pyarith, pyconst] theorem cfg8_CARRY : dev6502.cfg.CARRY = 1 := rfl
+@[pyarith, pyconst] theorem cfg16_BYTE_WIDTH : dev65org16.cfg.BYTE_WIDTH = 16 := rfl
+@[pyarith, pyconst] theorem cfg16_ADDR_WIDTH : dev65org16.cfg.ADDR_WIDTH = 32 := rfl
+@[pyarith, pyconst] theorem cfg16_byteMask : dev65org16.cfg.byteMask = 65535 := rfl
+@[pyarith, pyconst] theorem cfg16_addrMask : dev65org16.cfg.addrMask = 4294967295 := rfl
+@[pyarith, pyconst] theorem cfg16_addrHighMask : dev65org16.cfg.addrHighMask = 4294901760 := rfl
+@[pyarith, pyconst] theorem cfg16_spBase : dev65org16.cfg.spBase = 65536 := rfl
+@[pyarith, pyconst] theorem cfg16_RESET : dev65org16.cfg.RESET = 65532 := rfl
+@[pyarith, pyconst] theorem cfg16_NMI : dev65org16.cfg.NMI = 65530 := rfl
+@[pyarith, pyconst] theorem cfg16_IRQ : dev65org16.cfg.IRQ = 65534 := rfl
+@[pyarith, pyconst] theorem cfg16_NEGATIVE : dev65org16.cfg.NEGATIVE = 32768 := rfl
+@[pyarith, pyconst] theorem cfg16_OVERFLOW : dev65org16.cfg.OVERFLOW = 16384 := rfl
+@[pyarith, pyconst] theorem cfg16_UNUSED : dev65org16.cfg.UNUSED = 32 := rfl
+@[pyarith, pyconst] theorem cfg16_BREAK : dev65org16.cfg.BREAK = 16 := rfl
+@[pyarith, pyconst] theorem cfg16_DECIMAL : dev65org16.cfg.DECIMAL = 8 := rfl
+@[pyarith, pyconst] theorem cfg16_INTERRUPT : dev65org16.cfg.INTERRUPT = 4 := rfl
+@[pyarith, pyconst] theorem cfg16_ZERO : dev65org16.cfg.ZERO = 2 := rfl
+@[pyarith, pyconst] theorem cfg16_CARRY : dev65org16.cfg.CARRY = 1 := rfl
 end
 
 /-- Field-wise reading of `core s' = core s`. -/
@@ -96,6 +96,12 @@ theorem core_fields {s' s : St} (h : core s' = core s) :
   simp only [core, AState.mk.injEq] at h
   exact h
 
+/-- Field-wise reading of `core s' = A`. -/
+theorem core_eq {s' : St} {A : AState} (h : core s' = A) :
+    s'.a = A.a ∧ s'.x = A.x ∧ s'.y = A.y ∧ s'.sp = A.sp ∧ s'.p = A.p ∧ s'.pc = A.pc ∧
+    s'.mem = A.mem ∧ s'.waiting = A.waiting := by
+  subst h; exact ⟨rfl, rfl, rfl, rfl, rfl, rfl, rfl, rfl⟩
+
 /-- WF only looks at the core. -/
 theorem WF_of_core {c : Cfg} {s' s : St} (h : core s' = core s) (hs : WF c s) : WF c s' := by
   obtain ⟨ha, hx, hy, hsp, hp, hpc, hmem, _⟩ := core_fields h
@@ -103,6 +109,45 @@ theorem WF_of_core {c : Cfg} {s' s : St} (h : core s' = core s) (hs : WF c s) : 
 
 /-- closing tactic: linear arithmetic, possibly under a few layers of function application -/
 macro "pyclose" : tactic =>
-  `(tactic| (repeat' (first | omega | rfl | congr 1)))
+  `(tactic| (repeat' (first | omega | with_reducible rfl | congr 1)))
 
+end Py65.Proofs
+
+namespace Py65.Proofs
+/-- Close goals that are equalities of `setFlag` chains / Boolean flag values / small linear
+arithmetic, possibly under contradictory hypotheses. -/
+theorem setFlag_congr {a a' : Int} {k : Nat} {b b' : Bool} (h1 : a = a') (h2 : b = b') :
+    Py65.Spec.setFlag a k b = Py65.Spec.setFlag a' k b' := by rw [h1, h2]
+
+theorem true_eq_decide (P : Prop) [Decidable P] : (true = decide P) = P := by
+  by_cases h : P <;> simp [h]
+theorem false_eq_decide (P : Prop) [Decidable P] : (false = decide P) = ¬P := by
+  by_cases h : P <;> simp [h]
+
+/-- Boolean goal about decidable linear-arithmetic facts. -/
+macro "bool_omega" : tactic =>
+  `(tactic| (
+    simp only [Py65.Spec.flag, Py65.Spec.eqB, Py65.Spec.geB, Py65.Spec.ltB, true_eq_decide, false_eq_decide, decide_eq_true_eq, decide_eq_false_iff_not,
+      decide_eq_decide, Bool.not_eq_true, Bool.or_eq_true, Bool.and_eq_true, Bool.not_eq_true']
+    first | omega | (constructor <;> intro _ <;> omega)))
+
+/-- Fold configuration constants and widths definitionally (also inside `Decidable` instances,
+which `simp` does not rewrite). -/
+syntax "constfold" ("[" Lean.Parser.Tactic.simpLemma,* "]")? (Lean.Parser.Tactic.location)? : tactic
+macro_rules
+  | `(tactic| constfold $[[$ls,*]]? $[$loc]?) => do
+    let extra : Array (Lean.TSyntax `Lean.Parser.Tactic.simpLemma) := match ls with
+      | some l => l.getElems
+      | none => #[]
+    `(tactic| dsimp only [$extra,*, Py65.Spec.BM, Py65.Spec.AM, Py65.Spec.bitN, Py65.Spec.bitV,
+      Py65.Spec.bitC, Py65.Spec.bitZ, Py65.Spec.bitI, Py65.Spec.bitD, Py65.Spec.bitB,
+      Py65.Spec.bitU, pyconst, Int.reducePow, Nat.reduceSub, Nat.reduceMul, Int.reduceNeg,
+      Int.reduceAdd, Int.reduceSub] $[$loc]?)
+
+macro "flag_close" : tactic =>
+  `(tactic| (
+    try simp only [Py65.Spec.flag, Py65.Spec.eqB, Py65.Spec.geB, Py65.Spec.ltB, decide_eq_true_eq, decide_eq_false_iff_not, Bool.not_eq_true,
+      Int.reducePow] at *
+    repeat' (first | with_reducible rfl | apply setFlag_congr)
+    all_goals (first | omega | bool_omega | (simp <;> omega) | (exfalso; omega))))
 end Py65.Proofs
